@@ -358,6 +358,12 @@ class Run:
         if self.ptr >= len(self.path):
             return 'go'
         e = self.path[self.ptr]
+        # a raw write of the schedule that the io stack does not perform here (it does not retry a
+        # failed flush, say): drop it, so that the rest of the schedule stays aligned
+        while (e['w'] == w and e['op'] == 'write' and e['res'] == 'ok' and op not in ('write', 'bcall')
+               and self.ptr + 1 < len(self.path)):
+            self.ptr += 1
+            e = self.path[self.ptr]
         if e['w'] != w:
             # the scheduled writer must be on its way to a boundary, otherwise nobody could move
             return None
